@@ -94,7 +94,12 @@ def run(rep: Report, tier: str) -> None:
                 rep.add(Finding("R19.1", f"R19.1/order/normalise-before-{nm}", v.module.rel, c.lineno, v.qualname,
                                 f"the {nm} can run before Time_Period values are normalised: the same period spelled in two accepted ways "
                                 f"(2020M1 / 2020-M01) is then compared as raw text", describe_path(p)))
-    skip = [n for n in g.nodes if n.kind == "test" and "_skip_load_validation" in src(n.stmt.test)]
+    # the documented skip: the statements INSIDE `if _skip_load_validation(): …` (the test itself lies on every path)
+    skip_ifs = [n_ for n_ in ast.walk(v.node) if isinstance(n_, ast.If) and "_skip_load_validation" in src(n_.test)]
+    skip_stmts = {id(x) for i_ in skip_ifs for b_ in i_.body for x in ast.walk(b_)}
+    skip = [n for n in g.nodes if n.stmt is not None and id(n.stmt) in skip_stmts]
+    if not skip:
+        raise AnalysisError("_validate_loaded_table: the documented VTL_SKIP_LOAD_VALIDATION early return was not found")
     for chk, nm in ((dup, "duplicate-key check"), (temp, "temporal format check")):
         rep.instance("R19.1", f"on-every-path/{nm}", nontrivial=True)
         p = g.path_avoiding(g.entry, lambda n: n is g.exit, lambda n: n in chk or n in skip, follow_exc=False)
@@ -216,5 +221,47 @@ def run(rep: Report, tier: str) -> None:
                                 f"documented Time_Period input \"{ex}\" is normalised to {norm!r} and rejected by the load regex"))
     rep.floor("documented Time_Period examples", nex, 10)
     rep.analysed = {"period_limits": limits, "docs_time_formats": doc_fmts, "docs_time_period_examples": nex}
+    # ---- R19.4 CSV path: a non-integral value in an Integer column is rejected (producer/consumer agreement, E6) ----
+    rep.rule("R19.4", "CSV loader: the read type chosen for an Integer column and the SELECT expression built from it reject non-integral values (no silent rounding)")
+    from sa import structmodel as sm
+    from sa.e6 import Unmodelled
+    grt, bsc = P.func(f"{VAL}.get_csv_read_type"), P.func(f"{VAL}.build_select_columns")
+    for role_nullable, rn in ((False, "identifier"), (True, "measure")):
+        comp = sm.MComp("I", "Identifier" if not role_nullable else "Measure", ClassVal("vtlengine.DataTypes.Integer"), role_nullable)
+        ext = {"get_decimal_type": lambda: "DECIMAL(⟦w⟧,⟦s⟧)"}
+        try:
+            rt = Interp(P, externals=ext).call(grt, {"comp": comp})
+            cols = Interp(P, externals=ext).call(bsc, {"components": {"I": comp}, "keep_columns": ["I"], "csv_dtypes": {"I": rt}, "dataset_name": "DS", "type_overrides": None})
+        except (Unmodelled, Raised) as e:
+            raise AnalysisError(f"R19.4: CSV select builder outside the evaluator's language: {e}")
+        expr = cols[0] if cols else ""
+        rep.instance("R19.4", f"integer-csv/{rn}", nontrivial=True, sample={"read_type": rt, "select": " ".join(str(expr).split())[:160]})
+        integral_read = str(rt).upper().split("(")[0] in ("BIGINT", "INTEGER", "INT", "SMALLINT", "HUGEINT", "TINYINT")
+        guarded = "error(" in str(expr).lower() and ("floor(" in str(expr).lower() or "trunc(" in str(expr).lower() or "% 1" in str(expr) or "round(" in str(expr).lower())
+        if not (integral_read or guarded):
+            rep.add(Finding("R19.4", f"R19.4/integer-csv/{rn}", bsc.module.rel, bsc.node.lineno, bsc.qualname,
+                            f"an Integer {rn} read from CSV as {rt} is loaded with `{' '.join(str(expr).split())[:140]}`: no test of the decimal part and the cast to BIGINT rounds, so 1.5 is accepted "
+                            f"as 2 instead of being rejected with DataLoadError 0-3-1-6 (the read type and the branch of build_select_columns that guards it no longer agree)"))
     rep.assumptions = ["DuckDB regexp_matches has search semantics (patterns are anchored explicitly)",
                        "the load regex is applied to the value after vtl_period_normalize (read from _validate_loaded_table)"]
+
+
+def loaded_table_checks_on_every_path(P: Program, rep: Report, rule: str) -> None:
+    """run()'s post-load validation (_validate_loaded_table): every normal exit has passed the duplicate-key check and the temporal
+    format check, except through the documented VTL_SKIP_LOAD_VALIDATION return (shared with C20: validate_dataset performs these
+    checks unconditionally, so a path of run() that skips one accepts inputs validate_dataset rejects)"""
+    v = P.func(f"{IO}._validate_loaded_table")
+    g = CFG(v.node)
+    skip_ifs = [n_ for n_ in ast.walk(v.node) if isinstance(n_, ast.If) and "_skip_load_validation" in src(n_.test)]
+    skip_stmts = {id(x) for i_ in skip_ifs for b_ in i_.body for x in ast.walk(b_)}
+    skip = [n for n in g.nodes if n.stmt is not None and id(n.stmt) in skip_stmts]
+    for callee, nm in (("validate_no_duplicates", "duplicate-key check"), ("validate_temporal_columns", "temporal format check")):
+        chk = [n for n in g.nodes if any(_callee_name(c) == callee for c in g.calls_at(n))]
+        if not chk:
+            raise AnalysisError(f"_validate_loaded_table no longer calls {callee}")
+        rep.instance(rule, f"run-side/on-every-path/{nm}", nontrivial=True)
+        p = g.path_avoiding(g.entry, lambda n: n is g.exit, lambda n, chk=chk: n in chk or n in skip, follow_exc=False)
+        if p is not None:
+            rep.add(Finding(rule, f"{rule}/run-side/on-every-path/{nm}", v.module.rel, v.node.lineno, v.qualname,
+                            f"run(): _validate_loaded_table can return without the {nm} (other than through the documented skip flag), while validate_dataset always performs it: "
+                            f"the two disagree on such inputs", describe_path(p)))
